@@ -477,6 +477,22 @@ def make_inside(lo, hi):
 in_a, in_b = make_inside(1, 2), make_inside(3, 4)
 def d37(ds): return ds.Select(lambda e: (in_a(e.v), in_b(e.w), in_a(e.u)))
 def p37(): return lambda e: (in_a(e.v), in_b(e.w), in_a(e.u))
+# a default that is a function, written with a name that means nothing where the helper lives: a loop variable, a parameter of the
+# factory that made the helper, a global deleted since
+up2, down2 = [lambda x, f=f: f(x).two for f in (inc_h, ident)]
+def d38(ds): return ds.Select(lambda e: (up2(e.a), down2(e.b)))
+def p38(): return lambda e: (up2(e.a), down2(e.b))
+def make_hh(g):
+    def hh(x, f=g, *, kf=g): return (f(x).two, kf(x))
+    return hh
+made_hh = make_hh(inc_h)
+def d39(ds): return ds.Select(lambda e: made_hh(e.v))
+def p39(): return lambda e: made_hh(e.v)
+def step_h(x): return x.step
+def stepped_h(x, f=step_h): return f(x).two
+del step_h
+def d40(ds): return ds.Select(lambda e: stepped_h(e.v))
+def p40(): return lambda e: stepped_h(e.v)
 # a captured lambda assigned the ordinary way
 add_one = lambda x: x.plus1
 def d25(ds): return ds.Select(lambda e: add_one(e.v))
@@ -500,7 +516,7 @@ def p6(): return lambda e: e.jets.Select(lambda j: two(j, e))
 
 def directed(ctx):
     m = modgen.load(DIRECTED, "c05d")
-    env = {n: getattr(m, n) for n in ("ident", "const", "sh", "addy", "two", "outer", "add3", "deep", "inner_kw", "outer_kw", "add_to_all", "table", "five_plus", "shifted", "corrected", "next_one", "after_deco", "nothing", "plus_1", "plus_1_then_10", "scale2", "inner_s", "outer_s", "helper_k", "h_b", "h_c", "add_one", "calibrated", "to_gev", "offset", "adder", "call_with_y", "plus_one", "inc_h", "apply_h", "bump_h", "twice_h", "compose_h", "cut10", "cut20", "in_a", "in_b")}
+    env = {n: getattr(m, n) for n in ("ident", "const", "sh", "addy", "two", "outer", "add3", "deep", "inner_kw", "outer_kw", "add_to_all", "table", "five_plus", "shifted", "corrected", "next_one", "after_deco", "nothing", "plus_1", "plus_1_then_10", "scale2", "inner_s", "outer_s", "helper_k", "h_b", "h_c", "add_one", "calibrated", "to_gev", "offset", "adder", "call_with_y", "plus_one", "inc_h", "apply_h", "bump_h", "twice_h", "compose_h", "cut10", "cut20", "in_a", "in_b", "up2", "down2", "made_hh", "stepped_h")}
     tags = ["bare-parameter", "constant-body", "nested-lambda-shadows-parameter", "argument-captured-by-inner-binder", "reordered-keywords", "helper-calls-helper", "call-in-nested-lambda", "curried-two-deep-lambdas-argument-names-innermost", "two-deep-nested-lambdas-argument-names-innermost",
             "keyword-only-parameter-hides-argument", "default-of-a-lambda-that-stays", "new-name-already-bound-in-scope", "keyword-of-a-call-that-stays", "default-bound-at-definition",
             "bound-method", "functools-wraps-wrapper", "lambda-on-the-decorator-line", "bare-return", "closures-of-one-factory-calling-each-other",
@@ -509,7 +525,8 @@ def directed(ctx):
             "helper-captures-something-unsendable", "returned-lambda-called-by-keyword", "handed-on-lambda-called-by-keyword",
             "handed-a-helper-argument-names-its-parameter", "handed-a-lambda-that-mentions-the-call-site-variable", "calls-what-a-helper-returns-with-its-own-parameter",
             "call-site-variable-named-like-the-function-parameter", "function-parameter-called-twice", "two-function-parameters-composed",
-            "sibling-lambdas-of-one-comprehension-differing-in-defaults", "closures-of-one-factory-differing-in-defaults"]
+            "sibling-lambdas-of-one-comprehension-differing-in-defaults", "closures-of-one-factory-differing-in-defaults",
+            "function-default-written-with-a-loop-variable", "function-default-written-with-a-factory-parameter", "function-default-whose-name-was-deleted"]
     for i, tag in enumerate(tags):
         ctx.case("directed:" + tag, True)
         expected = probe.behaviour(getattr(m, f"p{i}")())
